@@ -15,7 +15,7 @@ META = {
              "verdict = SchemaField.validate_value's (True / FIXMessageError / anything else) against vf.ref.lexical's accept / reject / "
              "unspecified zones; distinct = (type, string) pairs counted once; non-trivial = string in the accept or reject zone"),
     "assumptions": ["unspecified and never judged: '.5', leading zeros beyond the field width, fractional seconds other than 3 digits, '=' in "
-                    "String/char, codes shorter than the bound or not upper-case letters, second 60/61, year 0000, DATA / LENGTH, empty string, "
+                    "String/char, codes shorter than the bound or not upper-case letters, second 60 (leap second), year 0000, DATA / LENGTH, empty string, "
                     "multi-valued MultipleValueString"],
 }
 REQUIRED_ORACLES = ["typed-value", "enumerator", "enum-near-miss", "endseqno-zero"]
